@@ -1,5 +1,19 @@
-//! Extra C14 seeds (t-digest float / reference encodings) attached with the t-digest codec.
-use crate::c14::Seed;
+//! Extra C14 seeds: t-digest float / reference encodings, with buffered values.
+use crate::c14::{Field, Seed};
+use crate::tdm::{self, Enc, TdImage};
+
 pub fn extra_seeds() -> Vec<Seed> {
-    vec![]
+    let f = |name: &'static str, off: usize, width: usize| Field { name, off, width };
+    let cents: Vec<(f64, u64)> = vec![(1.0, 1), (2.0, 3), (3.5, 2), (4.0, 1)];
+    let mut out = vec![];
+    let native = vec![f("preLongs", 0, 1), f("serVer", 1, 1), f("family", 2, 1), f("k", 3, 2), f("flags", 5, 1), f("unused", 6, 2), f("numCentroids|value", 8, 4), f("numBuffered", 12, 4), f("min", 16, 4), f("max", 20, 4), f("mean0", 24, 4), f("weight0", 28, 4)];
+    let refd = vec![f("type", 0, 4), f("min", 4, 8), f("max", 12, 8), f("compression", 20, 8), f("count", 28, 4), f("weight0", 32, 8), f("mean0", 40, 8)];
+    let reff = vec![f("type", 0, 4), f("min", 4, 8), f("max", 12, 8), f("compression", 20, 4), f("cap1", 24, 2), f("cap2", 26, 2), f("count", 28, 2), f("weight0", 30, 4), f("mean0", 34, 4)];
+    for (enc, fields, entries) in [(Enc::F32, native.clone(), vec![14usize, 15]), (Enc::RefDouble, refd, vec![14, 15]), (Enc::RefFloat, reff, vec![14, 15])] {
+        let img = TdImage { enc, k: 100, flags: 0, min: 1.0, max: 4.0, centroids: cents.clone(), buffered: vec![] };
+        out.push(Seed { name: format!("td/{}", enc.name()), family: "td", entries, bytes: tdm::encode(&img, false), fields });
+    }
+    let img = TdImage { enc: Enc::F64, k: 100, flags: tdm::FLAG_REVERSE, min: 1.0, max: 4.0, centroids: cents.clone(), buffered: vec![2.5, 3.0] };
+    out.push(Seed { name: "td/native f64 with buffered values, reverse flag".into(), family: "td", entries: vec![14, 15], bytes: tdm::encode(&img, false), fields: vec![f("preLongs", 0, 1), f("k", 3, 2), f("flags", 5, 1), f("numCentroids", 8, 4), f("numBuffered", 12, 4), f("min", 16, 8), f("max", 24, 8), f("mean0", 32, 8), f("weight0", 40, 8)] });
+    out
 }
